@@ -1,8 +1,11 @@
 import Magog.Lemmas.SearchIter
 import Magog.Lemmas.SearchExamples
+import Magog.Lemmas.PvLegal
+import Magog.Lemmas.PvWitness
 
 /-! Property C10 — the move played is the first move of the last principal variation printed; printed
-    principal variations are never empty.
+    principal variations are never empty; every printed principal variation is a legal line from the searched
+    position (`C10_pv_legal`), and the move played is a generated, legal move (`C10_bestmove_legal`).
 
 Partial-correctness statements about `Model.iterDeep` (hypothesis `iterDeep … = .ok s`), valid for every `env`,
 killer table and initial `rows` / `len0`. `s.out` lists the output events most recent first. -/
@@ -74,5 +77,90 @@ open SearchExamples in
 example : ∃ s, iterDeep quietEnv 3 kkPos 2 Killers.empty (newRows 6) 6 = .ok s := by
   obtain ⟨s, _, _, _, _, _, hs, _, _⟩ := endsWithBest_elim quiet_run2
   exact ⟨s, hs⟩
+
+/-- **Every principal variation printed during a search is a legal line from the searched position.**
+
+For every oracle `env` (time-outs and stop requests at arbitrary moments: the mid-iteration lines printed by the
+root loop and the lines of interrupted iterations are included), every killer table and every stale content
+`rows` / stale header length `len0` of the PV table: each `pv` printed by an `info score … pv` (`infoPv`) or
+`info depth … pv` (`infoDepth`) line satisfies `LegalLine p pv` — move by move it is produced by the move
+generator (the tactical generator inside quiescence) at the position reached so far and applied by `makeMove`
+without leaving the mover in check — and its first move comes from the full move generator at `p`.
+
+Hypotheses: `sortFn` only permutes; `G d` is a family of sets of positions closed under generated legal moves
+(`G d p → G (d+1) q`) containing the root at depth 0; and all static/terminal scores on `G d`, for the depths `d`
+at which the table has a row `d + 1`, lie strictly between `−∞` and `+∞` (`EvalFinite`). The last hypothesis is
+necessary: a node whose static evaluation is `≤ −∞` returns its `α = −∞` without having written its row, and the
+root (whose `β = +∞`) then copies that stale row. -/
+theorem C10_pv_legal {env : Env} {G : Nat → Position → Prop} {qfuel : Nat} {p : Position} {maxDepth : Nat}
+    {killers : Killers} {rows : Array (Array Move)} {len0 : Nat} {s : SS}
+    (h : iterDeep env qfuel p maxDepth killers rows len0 = .ok s)
+    (hsort : Magog.Lemmas.AlphaBeta.PermSort env) (hp : G 0 p) (hcl : GenClosed G)
+    (hfin : EvalFinite env G rows.size) :
+    ∀ e ∈ s.out, ∀ sc d n pv, (e = .infoPv sc d n pv ∨ e = .infoDepth d sc n pv) →
+      LegalLine p pv ∧ ∀ m rest, pv = m :: rest → ∃ kt ms, generateMoves kt p = .ok ms ∧ m ∈ ms.map (·.mov) := by
+  have H : PvHyps env G rows.size := ⟨PvWitness.sortSound_of_perm hsort, hcl, hfin⟩
+  obtain ⟨hall, _⟩ := iterDeep_pv H hp h
+  intro e he sc d n pv hpv
+  have hmem : pv ∈ pvsOf s.out := by
+    rcases hpv with rfl | rfl
+    · exact mem_pvsOf.2 (.inl ⟨_, _, _, he⟩)
+    · exact mem_pvsOf.2 (.inr ⟨_, _, _, he⟩)
+  have hr := hall pv hmem
+  refine ⟨hr.legal, ?_⟩
+  rintro m rest rfl
+  exact hr.head
+
+open SearchExamples PvWitness in
+/-- non-vacuity: Ka1 vs Kh8, `go depth 2` on a 4-row table (kernel-evaluated): the run succeeds and prints a
+    two-move `info depth 2` line; the positions within two plies of the root form a closed family on which the
+    evaluation is finite -/
+example : ∃ s sc n m1 m2, iterDeep quietEnv 1 kkPos 2 Killers.empty (newRows 4) 4 = .ok s ∧
+    Event.infoDepth 2 sc n [m1, m2] ∈ s.out ∧
+    Magog.Lemmas.AlphaBeta.PermSort quietEnv ∧ Reach kkPos 2 0 kkPos ∧ GenClosed (Reach kkPos 2) ∧
+    EvalFinite quietEnv (Reach kkPos 2) (newRows 4).size ∧ LegalLine kkPos [m1, m2] := by
+  obtain ⟨s, sc, n, m1, m2, _, _, hs, hm, _⟩ := hasPv2_elim pvRun_ok
+  exact ⟨s, sc, n, m1, m2, hs, hm, quietEnv_perm, reach_root _ _, reach_closed _ _, kk_evalFinite,
+    (C10_pv_legal hs quietEnv_perm (reach_root _ _) (reach_closed _ _) kk_evalFinite _ hm _ _ _ _ (.inr rfl)).1⟩
+
+open SearchExamples PvWitness in
+/-- sharpness: the hypothesis `EvalFinite` of `C10_pv_legal` cannot be dropped. Under `hugeEnv` (quiet oracle,
+    identity sort, a blend that makes the static evaluation of the position after `Ka1-a2` infinite) the search
+    of Ka1 vs Kh8 on a fresh table succeeds and prints a principal variation that is *not* a legal line: the
+    depth-1 node returns `α = −∞` without writing row 1 and the root copies the whole stale row behind its move. -/
+example : ∃ s sc d n pv, iterDeep hugeEnv 1 kkPos 1 Killers.empty (newRows 4) 4 = .ok s ∧
+    Event.infoPv sc d n pv ∈ s.out ∧ ¬ LegalLine kkPos pv ∧ Magog.Lemmas.AlphaBeta.PermSort hugeEnv :=
+  let ⟨s, sc, d, n, pv, hs, hm, hn⟩ := printsIllegal_elim hugeRun_illegal
+  ⟨s, sc, d, n, pv, hs, hm, hn, fun l => List.Perm.refl l⟩
+
+/-- **The move played is legal**: `bestmove m` names a move produced by the full move generator at the searched
+    position, which `makeMove` applies without leaving the mover in check (this is also C03's "the move named is
+    legal"). Same hypotheses as `C10_pv_legal`. -/
+theorem C10_bestmove_legal {env : Env} {G : Nat → Position → Prop} {qfuel : Nat} {p : Position} {maxDepth : Nat}
+    {killers : Killers} {rows : Array (Array Move)} {len0 : Nat} {s : SS} {m : Move} {rest : List Event}
+    (h : iterDeep env qfuel p maxDepth killers rows len0 = .ok s)
+    (hsort : Magog.Lemmas.AlphaBeta.PermSort env) (hp : G 0 p) (hcl : GenClosed G)
+    (hfin : EvalFinite env G rows.size) (hout : s.out = .bestmove m :: rest) :
+    (∃ kt ms, generateMoves kt p = .ok ms ∧ m ∈ ms.map (·.mov)) ∧ ∃ q, makeMove p m = .ok (q, true) := by
+  have H : PvHyps env G rows.size := ⟨PvWitness.sortSound_of_perm hsort, hcl, hfin⟩
+  obtain ⟨_, hcand⟩ := iterDeep_pv H hp h
+  obtain ⟨best, done, nodes, pv, rest', _, hhead, _, rfl⟩ := C10_bestmove h hout
+  cases hc : s.cand with
+  | nil => rw [hc] at hhead; cases hhead
+  | cons m' tl =>
+    rw [hc] at hhead hcand
+    simp only [List.head?_cons, Option.some.injEq] at hhead
+    subst hhead
+    obtain ⟨q, hg, hm, _⟩ := hcand
+    exact ⟨hg, q, hm⟩
+
+open SearchExamples PvWitness in
+/-- non-vacuity: the same run ends with `bestmove m` -/
+example : ∃ s m rest, iterDeep quietEnv 1 kkPos 2 Killers.empty (newRows 4) 4 = .ok s ∧
+    s.out = .bestmove m :: rest ∧
+    Magog.Lemmas.AlphaBeta.PermSort quietEnv ∧ Reach kkPos 2 0 kkPos ∧ GenClosed (Reach kkPos 2) ∧
+    EvalFinite quietEnv (Reach kkPos 2) (newRows 4).size := by
+  obtain ⟨s, _, _, _, _, m, rest, hs, _, hout⟩ := hasPv2_elim pvRun_ok
+  exact ⟨s, m, rest, hs, hout, quietEnv_perm, reach_root _ _, reach_closed _ _, kk_evalFinite⟩
 
 end Magog.Props.C10
